@@ -864,7 +864,11 @@ def shrink(line):
 LEVEL_TEXT = ('Lean 4 theorems about Model.Tlsh / Model.Nilsimsa (hand-written mirrors of crysp/tlsh.py and crysp/nilsimsa.py) for every configuration, '
               'input, force flag and digest pair, with l_capturing an uninterpreted parameter; the models are tied to the current source by the translator '
               '(Pearson table, probed triplet generator, probed body-scoring table, minimum lengths, Nilsimsa table) and by a boundary-directed correspondence '
-              'stream that also evaluates independent positional references of both algorithms and the distance laws on the real code.')
+              'stream that also evaluates independent positional references of both algorithms and the distance laws on the real code. A call on a '
+              'USED object: in the object model Model.Objects.TlshO the result of __call__ and the state it leaves are those of the first call on a new '
+              'object, from any state / after any history (tlsh_call_ignores_state, tlsh_call_ignores_history; Nilsimsa: nilsimsa_call_ignores_history); '
+              'the tlsh.calls / nilsimsa.calls lines drive ONE real object (and the module singleton) through histories and compare every call with '
+              'the one-shot model, spec and reference digest of its own arguments.')
 LEVEL_NOTE = ('Trusted: Lean kernel; axioms ⊆ {propext, Classical.choice, Quot.sound}; extract.py/runcheck.py/props/C19.py. There is NO executable reference '
               'implementation of TLSH or Nilsimsa in this image: Spec.Tlsh/Spec.Nilsimsa (and the Python references of the predicate) rest on the paper / '
               'nilsimsa.c text and are validated only against the known answers of /repo/tests/test_tlsh.py and test_nilsimsa.py (kept in corpus/C19.ops). '
